@@ -10,6 +10,8 @@ import (
 	"bytes"
 	"fmt"
 	"io"
+	"os"
+	"path/filepath"
 	"time"
 
 	"github.com/Tnze/go-mc/save/region"
@@ -36,6 +38,7 @@ var (
 	PBoundary   = simrt.NewProbe("region.size.at.sector.boundary+-1")
 	PPad        = simrt.NewProbe("region.pad.to.full.sector")
 	PStartImage = simrt.NewProbe("region.history.starts.from.earlier.image")
+	PRealFile   = simrt.NewProbe("region.on.real.os.File(Create/Open/Close)")
 )
 
 type Key struct{ X, Z int }
@@ -60,6 +63,12 @@ type Sim struct {
 	OnWrite func(s *Sim, k Key, before []byte, journal []simdisk.Write, pre map[Key][]byte) bool
 	// state fingerprint
 	StateFP uint64
+	// Real: the region lives in a real file (region.Create/Open/Close) in a
+	// scratch directory instead of the simulated disk; the image oracles read
+	// the file back after every operation.
+	Real bool
+	dir  string
+	path string
 }
 
 // Content returns unique, self-describing chunk data.
@@ -130,9 +139,64 @@ func (s *Sim) Coord() Key {
 	return Key{s.T.Choose(32), s.T.Choose(32)}
 }
 
+// UseRealFile switches the sim to a real file before Open.
+func (s *Sim) UseRealFile() bool {
+	dir, err := os.MkdirTemp(".", "region-")
+	if err != nil {
+		s.C.Infra = "scratch dir: " + err.Error()
+		return false
+	}
+	PRealFile.Hit()
+	s.Real, s.dir, s.path = true, dir, filepath.Join(dir, "r.0.0.mca")
+	s.WriterAt = true
+	if len(s.Disk.Img) > 0 {
+		if err := os.WriteFile(s.path, s.Disk.Img, 0o644); err != nil {
+			s.C.Infra = "scratch file: " + err.Error()
+			return false
+		}
+	}
+	return true
+}
+
+// Cleanup closes and removes the real file, if any.
+func (s *Sim) Cleanup() {
+	if s.Real {
+		if s.R != nil {
+			s.R.Close()
+		}
+		os.RemoveAll(s.dir)
+	}
+}
+
+// sync re-reads the real file into the image the oracles look at.
+func (s *Sim) sync() bool {
+	if !s.Real {
+		return true
+	}
+	b, err := os.ReadFile(s.path)
+	if err != nil {
+		s.C.Infra = "reading back the region file: " + err.Error()
+		return false
+	}
+	s.Disk.Img = b
+	return true
+}
+
 // Open creates (empty disk) or loads the region.
 func (s *Sim) Open() bool {
 	var err error
+	if s.Real {
+		if _, serr := os.Stat(s.path); serr != nil {
+			s.R, err = region.Create(s.path)
+		} else {
+			s.R, err = region.Open(s.path)
+		}
+		if err != nil {
+			s.C.Fail("region.open", "open", "error", "opening the region file failed: %v", err)
+			return false
+		}
+		return s.sync()
+	}
 	if len(s.Disk.Img) == 0 {
 		s.R, err = region.CreateWriter(s.RW)
 	} else {
@@ -279,7 +343,7 @@ func (s *Sim) Write(k Key, size int) bool {
 	}
 	before := s.Disk.Img
 	var pre map[Key][]byte
-	if s.OnWrite != nil || overLimit {
+	if s.OnWrite != nil || overLimit || s.Real {
 		before = append([]byte(nil), s.Disk.Img...)
 		pre = cloneModel(s.Model)
 	}
@@ -288,6 +352,9 @@ func (s *Sim) Write(k Key, size int) bool {
 	jumps := s.Clock.Jumps
 	err := s.R.WriteSector(k.X, k.Z, data)
 	s.Disk.Record = false
+	if !s.sync() {
+		return false
+	}
 	if s.Clock.Jumps > jumps {
 		PClockJump.Hit()
 	}
@@ -375,6 +442,9 @@ func (s *Sim) Pad() bool {
 		s.C.Fail("region.pad", "pad", "error", "PadToFullSector failed: %v", err)
 		return false
 	}
+	if !s.sync() {
+		return false
+	}
 	if len(s.Disk.Img)%4096 != 0 {
 		s.C.Fail("region.pad", "pad", "size", "after PadToFullSector the file has %d bytes, not a multiple of 4096", len(s.Disk.Img))
 		return false
@@ -387,8 +457,18 @@ func (s *Sim) Reopen() bool {
 	if !s.CheckFresh("history so far") {
 		return false
 	}
-	s.Disk.Pos = 0
-	r, err := region.Load(s.RW)
+	var r *region.Region
+	var err error
+	if s.Real {
+		if cerr := s.R.Close(); cerr != nil {
+			s.C.Fail("region.reload", "reopen", "close-error", "closing the region file failed: %v", cerr)
+			return false
+		}
+		r, err = region.Open(s.path)
+	} else {
+		s.Disk.Pos = 0
+		r, err = region.Load(s.RW)
+	}
 	if err != nil {
 		s.C.Fail("region.reload", "reopen", "load-error", "re-opening the region failed: %v", err)
 		return false
